@@ -1476,7 +1476,7 @@ PROPERTY = Property(
                  rule=_RULE_PATHS + "; |r| <= 1 and equality with the sine/tangent laws resp. total-reflection "
                       "phases recomputed from n1, n2 and the reported launch direction; non-trivial = the ray "
                       "reflects away from the critical angle",
-                 floors={"regime=plain": 0.15, "regime=total": 0.05, "bounces=2": 0.005}, classify=_classifier()),
+                 floors={"regime=plain": 0.15, "regime=total": 0.05}, classify=_classifier()),
         SubCheck("energy", energy_cases(), check_energy, quick=800, thorough=40000, quick_shards=8,
                  rule=_RULE_PATHS + " x signal x polarization x interpolation; sum(out_s^2 + out_p^2) <= "
                       "sum(in^2) |pol|^2 (1 + 1e-9); non-trivial = output energy above 1e-12 of the bound",
